@@ -7,7 +7,8 @@ EXPLANATION = ("Every hand-maintained 30-way dispatch table of the crate (auto p
                "message_type/validate/accessors, plugin parse, publish, validate) is extracted from the resolved "
                "program and compared cell by cell with the 30 impl SwiftMessageBody: key literal, enum variant, "
                "generic arguments, callee and receiver types of each arm must name one type; tables must be "
-               "bijections; the typed parser must reject a mismatching announced type before parsing block 4.")
+               "bijections; the typed parser must reject a mismatching announced type before parsing block 4; "
+               "every consumer of a whole-message parse records an error on every path through its Err arm.")
 ASSUMPTIONS = ["rustc name resolution and type inference (generic arguments of each arm are the resolved ones)",
                "the dataflow-rs engine around the plugin functions is outside the repository"]
 
@@ -17,6 +18,7 @@ def run(F, tier):
     r, tabs, ids = dispatch.d1(rep, F)
     dispatch.wrapper_enum(rep, F, ids)
     dispatch.t03(rep, F)
+    dispatch.d2(rep, F)
     rep.programs = len(tabs) + len(ids)
     rep.cells = sum(len(t.arms) for t in tabs)
     for t in tabs[:6]:
